@@ -7,7 +7,7 @@ LEVEL = "proof"
 def run(ctx, out):
     dcheck.run_property(ctx, out, "C01", "mon_c01", n_quick=300, n_thorough=5000,
                         gen_kw=dict(ws_share=0.35, batches=0.08, malformed=0.02, timers=False),
-                        directed=directed.regressions() + directed.case_variants() + directed.equal_looking_values() + directed.colliding_paths())
+                        directed=directed.regressions() + directed.case_variants() + directed.equal_looking_values() + directed.colliding_paths() + directed.fetcher_table_churn())
     dcheck.run_more(ctx, out, "C01", "mon_c01", n_quick=120, n_thorough=1500,
                     gen_kw=dict(variant="small", ws_share=0.2, single=True, timers=False), tag="small")
     out.assumptions += ["cJSON duplication of values is trusted to be faithful", "visibility uses the group words the daemon itself holds (C08 checks those)"]
